@@ -56,7 +56,17 @@ def shapes(tier):
     pool = F if k < 3 else Fr
     for combo in itertools.product(pool, repeat=k):
       t = ("S", "T", tuple((names[i], ft) for i, ft in enumerate(combo)))
-      if layout.width(t) <= 12: out.append(t)
+      if layout.width(t) <= (12 if tier == "quick" else 14): out.append(t)
+  if tier == "thorough":      # four fields over the reduced pool, and a struct nested two levels deep
+    for combo in itertools.product(field_types(False), repeat=4):
+      t = ("S", "T", tuple(("abcd"[i], ft) for i, ft in enumerate(combo)))
+      if layout.width(t) <= 14: out.append(t)
+    deep = ("S", "Deep", (("u", INNER[2]), ("v", L(INNER[1], 2))))
+    for ft in field_types(False):
+      for order in (0, 1):
+        fs = (("a", deep), ("b", ft)) if order == 0 else (("a", ft), ("b", deep))
+        out.append(("S", "T", fs))
+        out.append(("S", "T", fs + (("c", L(deep, 2)),)) if layout.width(("S", "T", fs)) + 2 * layout.width(deep) <= 40 else ("S", "T", fs))
   return out
 
 
@@ -99,8 +109,11 @@ def leaf_obj(obj, path):
   return obj
 
 
+FULL_W = [8]        # all packed values are enumerated up to this width (thorough tier: 11)
+
+
 def values_for(W):
-  if W <= 8: return list(range(1 << W))
+  if W <= FULL_W[0]: return list(range(1 << W))
   M = (1 << W) - 1
   vals = {0, M, int("01" * W, 2) & M, int("10" * W, 2) & M}
   for i in range(W): vals.add(1 << i); vals.add(M ^ (1 << i))
@@ -298,11 +311,13 @@ def shards(tier):
   k = 32
   S = [("layout", i, k) for i in range(k)]
   S += [("alias", i, 2 if tier == "quick" else 3) for i in range(len(ALIAS_SHAPES))]
+  if tier == "thorough": S += [("alias", 0, 4)]
   return S
 
 
 def run_shard(shard, tier, seed):
   acc = Acc()
+  FULL_W[0] = 8 if tier == "quick" else 11
   if shard[0] == "layout":
     sh = shapes(tier)
     for j in range(shard[1], len(sh), shard[2]):
@@ -335,5 +350,5 @@ def finish(acc, tier):
          "or one copy/assignment history on two objects; non-trivial = distinct shapes with >= 2 leaves (where field order matters)",
     exhaustive=True, shapes=int(acc.n["shapes"]), shapes_with_lists=int(acc.n["shapes_with_lists"]),
     alias_histories=int(acc.n["alias_histories"]), alias_states=int(acc.n["alias_states"]),
-    bounds=dict(max_width=12, all_values_up_to_width=8, alias_depth=2 if tier == "quick" else 3),
+    bounds=dict(max_width=12 if tier == "quick" else 40, all_values_up_to_width=8 if tier == "quick" else 11, max_fields=3 if tier == "quick" else 4, alias_depth=2 if tier == "quick" else "3 (4 on shape A1)"),
   )
